@@ -10,7 +10,7 @@ for d in ${1:-/verif/benign}/*; do
   vd=$(mktemp -d /tmp/mutv.XXXXXX); cp /verif/known_findings.json $vd/
   alarms=""
   for p in $props; do
-    out=$(/verif/bin/argverif -repo $scratch -verif $vd -property $p 2>&1); rc=$?
+    out=$(${ARGVERIF:-/verif/bin/argverif} -repo $scratch -verif $vd -property $p 2>&1); rc=$?
     if [ $rc -ne 0 ]; then
       rules=$(echo "$out" | grep -oE "rule=[A-Z0-9-]+" | sort -u | sed 's/rule=//' | tr '\n' ',')
       alarms="$alarms $p[$rules]"
